@@ -239,21 +239,25 @@ class CHECK(vlib.Check):
                    c_srcs=("lang/c/minimessage/MiniMessage.c", "lang/c/minimessage/MiniMessageGateway.c",
                            os.path.join(vlib.VERIF, "harness", "parse_c_micro.c"), "lang/c/micromessage/MicroMessageGateway.c"))
     quick_timeout = 1500
-    modelled = ("message/Message.cpp Message::Unflatten, MessageField::Unflatten/SingleUnflatten/GetNumItemsInFlattenedBuffer, every "
-                "*DataArray::TemplatedUnflatten, Message::TemplatedUnflatten/MessageField::TemplatedUnflatten, support/DataUnflattener.h "
-                "(reader cursor, budget, SizeCheck, read limiter, child readers, ReadCString), String::Unflatten, the allocation requests of "
-                "these paths, iogateway/MessageIOGateway.cpp DoInputImplementation/ReceiveMoreData/GetBodySize (stream mode).  "
-                "Corresponded to the model: msg, tmsg, nest, gw,mio targets.  Sanitizer + oracle only (not modelled): C MiniMessage/"
-                "MicroMessage parsers and gateways, Templating/PacketTunnel/MiniPacketTunnel/WebSocket/PlainText/RawData/SLIP gateways, "
-                "zlib encodings, packet (UDP) mode of MessageIOGateway.")
+    modelled = ("Modelled in Coq and corresponded: message/Message.cpp Message::Unflatten, MessageField::Unflatten / SingleUnflatten / "
+                "GetNumItemsInFlattenedBuffer, every *DataArray::TemplatedUnflatten, GetOrCreateMessageField; support/DataUnflattener.h (cursor, "
+                "budget, SizeCheck, read limiter, child readers, SeekRelative's int32 argument, ReadCString); String::Unflatten; the allocation "
+                "requests of these paths; Message::TemplatedUnflatten / MessageField::TemplatedUnflatten (model corresponded, pinned code refuted "
+                "by witness, general theorems not proved); iogateway/MessageIOGateway.cpp DoInputImplementation / ReceiveMoreData / GetBodySize "
+                "in stream mode (model corresponded, soundness theorem proved).  Targets corresponded to the model: msg, tmsg, nest, gw,mio.  "
+                "Sanitizer + oracle only (not modelled): C MiniMessage / MicroMessage parsers and gateways, Templating / PacketTunnel / "
+                "MiniPacketTunnel / WebSocket / PlainText / RawData / SLIP gateways, zlib encodings, packet (UDP) mode of MessageIOGateway.")
     premises = ["memory safety of the C++/C object code itself is observed by ASan/UBSan in the harness, not proved",
-                "stack exhaustion on deeply nested input is runtime (finding F5, known); the model proves depth <= len/28+1",
-                "allocation is counted in the model's units (sizeof-based requests); the harness meters real heap bytes with its own K=64, C=256KiB",
-                "buffer length below 2^32-1 (the uint32 API cannot describe more; 2^32-1 is the MUSCLE_NO_LIMIT sentinel)"]
-    rule = ("byte strings from random.Random(seed): valid encodings from an independent Python encoder, every truncation, every marked "
-            "length/count/type word replaced by boundary values, bit flips, random bytes; each sent to the C++ parser, the templated parser, "
-            "the C mini/micro parsers and through every gateway under several segmentations.  Non-trivial = the input is not accepted "
-            "verbatim-valid: it is a truncation/corruption/random string, or a valid encoding delivered in more than one segment.")
+                "stack exhaustion on deeply nested input is runtime (finding F5, known); the model proves 28*depth <= len",
+                "allocation is counted in the model's units (sizeof-based requests, amortised growth); the harness meters real heap bytes "
+                "against its own bound K=64, C=256 KiB (plus 1 MiB and the configured maximum for gateways)",
+                "buffer length below 2^31 (the uint32 API cannot describe 2^32-1 or more; SeekRelative takes its uint32 argument as int32)",
+                "zlib inflate, the templated parser's general safety and the C parsers are outside the theorems"]
+    rule = ("byte strings from random.Random(seed): valid encodings from an independent Python encoder; every truncation; every marked "
+            "length/count/type word replaced by boundary values; two- and three-word conspiracies (field length x item count x next word, "
+            "field tails with 0..5 bytes left); bit flips; splices; random bytes; nesting to depth 200; each sent to the C++ parser, the "
+            "templated parser, the C mini/micro parsers and through every gateway under several segmentations; multi-packet conspiracies "
+            "against the tunnel.  Non-trivial = everything except a valid encoding handed unmodified to a Message parser (flag ',v').")
 
     # ------------------------------------------------------------------ generator support: wire bytes from a sender gateway
     def emit(self, reqs):
@@ -644,7 +648,7 @@ class CHECK(vlib.Check):
 
     def nontrivial(self, case):
         head, _, body = case.partition("|")
-        return True
+        return not head.endswith(",v")
 
     def distribution(self, sc):
         d = {}
